@@ -175,7 +175,7 @@ def bi_str_get(ex, f, a):
     s, r = a
     st, en = range_parts(r)
     c = in_range_cond(ex, s, st, en, True)
-    i = ex.decide([c, s_not(c)])
+    i = ex.decide([c, s_not(c)], exhaustive=True)
     return option(ex, f, subslice(ex, s, st, en) if i == 0 else None)
 
 
@@ -184,7 +184,7 @@ def bi_slice_get(ex, f, a):
     s, r = a
     st, en = range_parts(r)
     c = in_range_cond(ex, s, st, en, False)
-    i = ex.decide([c, s_not(c)])
+    i = ex.decide([c, s_not(c)], exhaustive=True)
     return option(ex, f, subslice(ex, s, st, en) if i == 0 else None)
 
 
@@ -214,7 +214,7 @@ def bi_slice_get_unchecked(ex, f, a):
 def bi_slice_get_idx(ex, f, a):
     s, i = a
     c = simp(z3.ULT(as_bv(i, U), as_bv(s.len, U)))
-    k = ex.decide([c, s_not(c)])
+    k = ex.decide([c, s_not(c)], exhaustive=True)
     return option(ex, f, SrcPtr(ex.add_off(s.off, i), ex.add_off(s.off, s.len)) if k == 0 else None)
 
 
@@ -243,7 +243,7 @@ def _range_like(ex, f, s, r, is_str, checked):
         raise EngineError('unsupported slice index type in ' + name)
     c = in_range_cond(ex, s, st, en, is_str)
     if checked:
-        i = ex.decide([c, s_not(c)])
+        i = ex.decide([c, s_not(c)], exhaustive=True)
         return option(ex, f, subslice(ex, s, st, en) if i == 0 else None)
     if ex.check(s_not(c)):
         raise Violation('get_unchecked', f'get_unchecked({st}..{en}) precondition can fail (len {ln})')
@@ -265,7 +265,7 @@ def bi_first(ex, f, a):
     s = a[0]
     ln = s.len
     c = (ln != 0) if isinstance(ln, int) else simp(ln != bvv(0, U))
-    i = ex.decide([c, s_not(c)])
+    i = ex.decide([c, s_not(c)], exhaustive=True)
     return option(ex, f, SrcPtr(s.off, ex.add_off(s.off, s.len)) if i == 0 else None)
 
 
@@ -275,7 +275,7 @@ def bi_try_from(ex, f, a):
     s = a[0]
     ln = s.len
     c = (ln == n) if isinstance(ln, int) else simp(ln == bvv(n, U))
-    i = ex.decide([c, s_not(c)])
+    i = ex.decide([c, s_not(c)], exhaustive=True)
     if i == 0:
         return Agg(None, 0, [SrcPtr(s.off, ex.add_off(s.off, s.len))])
     return Agg(None, 1, [Agg(None, None, [Agg(None, None, [])])])
